@@ -208,6 +208,9 @@ func reorder(funcs []*provider, initF *provider) ([]*provider, error) {
 		nodes[i] = node{
 			before: make(map[int]struct{}),
 			after:  make(map[int]struct{}),
+			// a ConsumptionOptional return makes a weak pair with a type node
+			weakBefore: make(map[int]struct{}),
+			weakAfter:  make(map[int]struct{}),
 		}
 	}
 	for _, pair := range strongPairs {
